@@ -295,6 +295,15 @@ func init() {
 					}
 				}
 				c.Feature("cli_runs")
+				if i%5 == 0 {
+					// "no difference" is rendered as the empty JSON Patch [] whichever way equal inputs are handed in
+					same := RunCLI(c, bin, append(append([]string{}, flags...), "-f", "patch", "a.json", "./a.json"), "", nil)
+					if v, err := ref.FromJSON(same.Stdout); same.Status != 0 || err != nil || !ref.Eq(v, []any{}, ref.List) {
+						c.Violation("jd -f patch on one file under two names does not print the empty JSON Patch", map[string]any{"binary": bin.Name, "status": same.Status, "stdout": same.Stdout})
+						return
+					}
+					c.Feature("cli_same_file")
+				}
 			}
 		},
 	})
